@@ -68,199 +68,7 @@ fn data_is_whitespace(data: &[u8]) -> (r_: bool)
         .unwrap_or(false)
 }
 //#end
-//#item file=src/authorship/attribution_tracker.rs kind=fn name=build_token_aligned_diffs body=opaque
-//@ #[verifier::external_body]
-fn build_token_aligned_diffs(
-    old_content: &str,
-    new_content: &str,
-    old_range: (usize, usize),
-    new_range: (usize, usize),
-    old_start_line: usize,
-    new_start_line: usize,
-) -> (r_: (Vec<ByteDiff>, Vec<(usize, usize)>))
-//@     requires
-//@         old_range.0 <= old_range.1 <= old_content.spec_bytes().len(), new_range.0 <= new_range.1 <= new_content.spec_bytes().len(),
-//@         is_char_boundary(old_content.spec_bytes(), old_range.0 as int), is_char_boundary(old_content.spec_bytes(), old_range.1 as int),
-//@         is_char_boundary(new_content.spec_bytes(), new_range.0 as int), is_char_boundary(new_content.spec_bytes(), new_range.1 as int),
-//@     ensures
-//@         // ASSUMED here (the body is not verified in this unit): the token-aligned segments re-concatenate to the two byte ranges
-//@         old_side(r_.0@) =~= old_content.spec_bytes().subrange(old_range.0 as int, old_range.1 as int),
-//@         new_side(r_.0@) =~= new_content.spec_bytes().subrange(new_range.0 as int, new_range.1 as int),
-{
-    let (old_start, old_end) = old_range;
-    let (new_start, new_end) = new_range;
-
-    let mut diffs = Vec::new();
-    let mut substantive_ranges = Vec::new();
-
-    let old_tokens = tokenize_non_whitespace(old_content, old_range, old_start_line);
-    let new_tokens = tokenize_non_whitespace(new_content, new_range, new_start_line);
-
-    if old_tokens.is_empty() && new_tokens.is_empty() {
-        append_range_diffs(
-            &mut diffs,
-            old_content,
-            new_content,
-            (old_start, old_end),
-            (new_start, new_end),
-            false,
-        );
-        return (diffs, substantive_ranges);
-    }
-
-    let token_ops = capture_diff_slices(&old_tokens, &new_tokens);
-    let mut old_cursor = old_start;
-    let mut new_cursor = new_start;
-    let mut last_was_change = false;
-
-    for op in token_ops {
-        match op {
-            DiffOp::Equal {
-                old_index,
-                new_index,
-                len,
-            } => {
-                for i in 0..len {
-                    let old_token = &old_tokens[old_index + i];
-                    let new_token = &new_tokens[new_index + i];
-
-                    append_range_diffs(
-                        &mut diffs,
-                        old_content,
-                        new_content,
-                        (old_cursor, old_token.start),
-                        (new_cursor, new_token.start),
-                        last_was_change,
-                    );
-
-                    diffs.push(ByteDiff::new(
-                        ByteDiffOp::Equal,
-                        &new_content.as_bytes()[new_token.start..new_token.end],
-                    ));
-
-                    old_cursor = old_token.end;
-                    new_cursor = new_token.end;
-                    last_was_change = false;
-                }
-            }
-            DiffOp::Delete {
-                old_index, old_len, ..
-            } => {
-                if old_len == 0 {
-                    continue;
-                }
-
-                let start = old_tokens[old_index].start;
-                let end = old_tokens[old_index + old_len - 1].end;
-
-                append_range_diffs(
-                    &mut diffs,
-                    old_content,
-                    new_content,
-                    (old_cursor, start),
-                    (new_cursor, new_cursor),
-                    last_was_change,
-                );
-
-                diffs.push(ByteDiff::new(
-                    ByteDiffOp::Delete,
-                    &old_content.as_bytes()[start..end],
-                ));
-
-                old_cursor = end;
-                last_was_change = true;
-            }
-            DiffOp::Insert {
-                new_index, new_len, ..
-            } => {
-                if new_len == 0 {
-                    continue;
-                }
-
-                let start = new_tokens[new_index].start;
-                let end = new_tokens[new_index + new_len - 1].end;
-
-                append_range_diffs(
-                    &mut diffs,
-                    old_content,
-                    new_content,
-                    (old_cursor, old_cursor),
-                    (new_cursor, start),
-                    last_was_change,
-                );
-
-                diffs.push(ByteDiff::new(
-                    ByteDiffOp::Insert,
-                    &new_content.as_bytes()[start..end],
-                ));
-
-                substantive_ranges.push((start, end));
-                new_cursor = end;
-                last_was_change = true;
-            }
-            DiffOp::Replace {
-                old_index,
-                old_len,
-                new_index,
-                new_len,
-            } => {
-                let old_start_pos = old_tokens
-                    .get(old_index)
-                    .map(|t| t.start)
-                    .unwrap_or(old_cursor);
-                let new_start_pos = new_tokens
-                    .get(new_index)
-                    .map(|t| t.start)
-                    .unwrap_or(new_cursor);
-
-                append_range_diffs(
-                    &mut diffs,
-                    old_content,
-                    new_content,
-                    (old_cursor, old_start_pos),
-                    (new_cursor, new_start_pos),
-                    last_was_change,
-                );
-
-                if old_len > 0 {
-                    let old_end_pos = old_tokens[old_index + old_len - 1].end;
-                    diffs.push(ByteDiff::new(
-                        ByteDiffOp::Delete,
-                        &old_content.as_bytes()[old_start_pos..old_end_pos],
-                    ));
-                    old_cursor = old_end_pos;
-                } else {
-                    old_cursor = old_start_pos;
-                }
-
-                if new_len > 0 {
-                    let new_end_pos = new_tokens[new_index + new_len - 1].end;
-                    diffs.push(ByteDiff::new(
-                        ByteDiffOp::Insert,
-                        &new_content.as_bytes()[new_start_pos..new_end_pos],
-                    ));
-                    substantive_ranges.push((new_start_pos, new_end_pos));
-                    new_cursor = new_end_pos;
-                } else {
-                    new_cursor = new_start_pos;
-                }
-                last_was_change = true;
-            }
-        }
-    }
-
-    append_range_diffs(
-        &mut diffs,
-        old_content,
-        new_content,
-        (old_cursor, old_end),
-        (new_cursor, new_end),
-        last_was_change,
-    );
-
-    (diffs, substantive_ranges)
-}
-//#end
+//#use-contract tokendiff ../_shared/build_token_aligned_diffs.inc.rs
 // ---------------------------------------------------------------- compute_diffs: the segments re-concatenate to the two texts
 /// the line table tiles the text: no gap, no overlap, no empty line, first line at 0, last line ends at the end
 #[verifier::opaque]
